@@ -117,7 +117,8 @@ func textOrByteStringDeterministic(input []byte) (int, error) {
 		return 0, err
 	}
 
-	if (uintLen + int(stringLen)) >= len(input) {
+	// Compare as uint64 first: int(stringLen) is negative for lengths >= 2^63.
+	if stringLen >= uint64(len(input)) || (uintLen+int(stringLen)) >= len(input) {
 		panic("Text or byte string's length cannot exceed the length of the input byte array.")
 	}
 
@@ -134,7 +135,7 @@ func arrayDeterministic(input []byte) (int, error) {
 	// Skip the starter byte and the bytes stating the amount of elements the array has.
 	startIndexOfNextElement := 1 + lenOfNumOfItems
 
-	for arrElementIndex := 0; arrElementIndex < int(numOfItems); arrElementIndex++ {
+	for arrElementIndex := uint64(0); arrElementIndex < numOfItems; arrElementIndex++ {
 		if startIndexOfNextElement >= len(input) {
 			panic("Number of items on CBOR array is less than the number of items it claims.")
 		}
@@ -165,7 +166,8 @@ func mapDeterministic(input []byte) (int, error) {
 	startIndexOfNextElement := 1 + lenOfNumOfItemPairs
 	lastSeenKey := []byte{}
 
-	for mapItemIndex := 0; mapItemIndex < int(numOfItemPairs)*2; mapItemIndex++ {
+	// mapItemIndex/2 < numOfItemPairs avoids overflowing numOfItemPairs*2.
+	for mapItemIndex := uint64(0); mapItemIndex/2 < numOfItemPairs; mapItemIndex++ {
 		if startIndexOfNextElement >= len(input) {
 			panic("Number of items on CBOR map is less than the number of items it claims.")
 		}
